@@ -390,7 +390,7 @@ def run(ctx):
     quick = ctx.tier == "quick"
     ctx.rule = (
         "MC: every sequence (bag x order) of 0..%d alleles over {1,2,4,13} x {-,C}, tandem lists {},{13-1},{1-4},{13-1,1-4}, "
-        "gene with/without deletion allele. (A) every case of that universe with 0..%d alleles plus the same-number tandem lists, "
+        "gene with/without deletion allele. (A) every case of that universe with 0..%d alleles plus the same-number tandem list {2-2} (thorough: also {13-1,1-4} and {2-2,13-1}), "
         "run through the real code on a generated gene, validated against the postconditions by DiplotypeTrace. "
         "(B) random bags of 0-6 majors of CYP2D6/CYP2A6/CYP2C19/GSTM1/toy/generated gene with random minors, added/lost and novel core variants, "
         "in all (quick: <=24 sampled) orders. distinct = (gene, tandem list, called alleles in order); non-trivial = at least 3 copies "
@@ -425,7 +425,7 @@ def run(ctx):
     accepted_pool = []
     out = os.path.join(tlc.scratch(), "dipl_cases.ndjson")
     gmax = "4" if quick else "5"
-    r = ctx.mc("gen/DiplotypeGen", workers=1, env={"OUT_FILE": out, "GEN_MAXN": gmax}, label="DiplotypeGen(case emission)", heap="6g")
+    r = ctx.mc("gen/DiplotypeGen", workers=1, env={"OUT_FILE": out, "GEN_MAXN": gmax, "GEN_TC": "4" if quick else "6"}, label="DiplotypeGen(case emission)", heap="6g")
     gen_cases = tlc.read_ndjson(out)
     os.unlink(out)
     got = [p for p in r.prints if p[1] == "CASES"]
